@@ -21,7 +21,11 @@ CONSTANTS KeyNames,     \* configured key names, e.g. {"ka","kb","kc"}
 \*  "ca"     issued by the registered client CA, with clientAuth EKU
 \*  "canoeku" issued by that CA but without the clientAuth EKU
 \*  "unk"    unknown self-signed certificate
+\*  "casamekey" self-signed certificate carrying the SAME public key as the "ca" identity (not issued by the CA)
+\*  "caexpired" issued by the registered CA for client auth, but expired
 \*  "none"   no certificate;  "bad" = unparsable header value (header only)
+\* peers: "trusted" = the configured proxy address; "neighbour" = another address in the same classful network as
+\* a proxy configured as a bare IP (must NOT be trusted); "untrusted" = anything else
 
 VARIABLES keys,      \* KeyNames -> [kind: "real"|"notoken"|"alias", roles, hide, target]
           croles,    \* [fp |-> roles, ca |-> roles]
